@@ -114,6 +114,8 @@ def run(cx):
     r1_r2(cx)
     r3(cx)
     r4(cx)
+    cx.rule("C12.R5", "K2", "the model snapshot kept in the node tree (and stored with the process) is taken after every in-place completion of the model (generated ids)")
+    r5(cx)
 
 
 def _matches(where_set, want):
@@ -255,3 +257,61 @@ def r4(cx):
           f.loc(), consequence="acts generated at run time (parallel / sequence / block / pushed acts) come back detached after a reload: "
                                "their `next` and children are lost, remaining sequence items are silently skipped")
     cx.floor("C12.R4", 1)
+
+
+def r5(cx):
+    """build_workflow keeps `tree.model = workflow.clone()`; the builders complete the model in place
+    (ids are generated for nodes without one). The snapshot is what Process::into_data stores and what
+    a reload re-parses, so it must be taken after the last mutation of the model parameter."""
+    m = cx.m
+    pa = Prov(m, "alias")
+    pv = Prov(m, "value")
+    f = m.one(r"^acts::scheduler::tree::build::build_workflow$")
+    snaps = []
+    for bi, b in enumerate(f.blocks):
+        for si, s in enumerate(b["s"]):
+            if s[0] == "A" and s[1][1] and isinstance(s[1][1][-1], list) and s[1][1][-1][0] == "f" and s[1][1][-1][2] == "model":
+                base = pa.root_place(f, s[1][0], [e for e in s[1][1][:-1]])
+                if base[0] == "param" and base[1] == 2:
+                    src = pv.root(f, s[2][1]) if s[2][0] == "use" else None
+                    snaps.append((bi, si, src))
+    if not snaps:
+        raise Anchor("build_workflow: no assignment to tree.model found")
+    # the clone that feeds the snapshot
+    clone_blocks = []
+    for bi, si, src in snaps:
+        r = src
+        n = 0
+        while r is not None and r[0] == "call" and n < 5:
+            c = Call(f, r[2])
+            if (c.callee.get("decl") or "") == "std::clone::Clone::clone" and c.args and pa.root(f, c.args[0])[:2] == ("param", 1):
+                clone_blocks.append(c.b)
+                break
+            r = pv.root(f, c.args[0]) if c.args else None
+            n += 1
+        if r is not None and r[0] == "param" and r[1] == 1 and not clone_blocks:
+            # value-mode provenance looks through clone(): find the clone call of the parameter that dominates the snapshot
+            for c in f.calls():
+                if (c.callee.get("decl") or "") == "std::clone::Clone::clone" and c.args and pa.root(f, c.args[0])[:2] == ("param", 1) and f.dominates(c.b, bi):
+                    clone_blocks.append(c.b)
+    if not clone_blocks:
+        raise Anchor("build_workflow: tree.model is not a clone of the model parameter")
+    cb = max(clone_blocks, key=lambda b: len(f.dom_chain(b)))
+    # mutations of the model parameter reachable after the clone
+    after = f.reach_from(f.succ(cb))
+    muts = []
+    for b in after:
+        for s in f.blocks[b]["s"]:
+            if s[0] == "A" and s[2][0] in ("ref", "addr") and len(s[2]) > 2 and s[2][2] and s[2][1][0] == 1:
+                muts.append(f.loc(b))
+            if s[0] == "A" and s[1][0] == 1 and s[1][1] and s[1][1] != ["*"]:
+                muts.append(f.loc(b))
+    cx.ob("C12.R5", "model-snapshot:after-completion", not muts,
+          "the model cloned into `tree.model` is not changed afterwards (mutable uses of the model after the clone: %s)" % (sorted(set(muts)) or "none"),
+          f.loc(cb), **({} if not muts else {"consequence": "ids generated for nodes without an explicit id are missing from the stored model: a reload re-parses it, generates different ids and cannot re-bind the stored tasks to their nodes"}))
+    # Process::into_data stores that snapshot
+    g = m.one(r"^%s::into_data$" % PROC)
+    ok = any(c.q.endswith("Process::model") for c in g.calls()) and any(c.q.endswith("Workflow::to_json") for c in g.calls())
+    pm = m.one(r"^%s::model$" % PROC)
+    cx.ob("C12.R5", "model-snapshot:stored", ok, "the process row stores `self.model().to_json()`, i.e. the tree's snapshot", g.loc())
+    cx.floor("C12.R5", 2)
